@@ -17,6 +17,7 @@ pub mod env;
 pub mod vm;
 
 pub mod c20_side;
+pub mod c21_bulk;
 pub mod c23_header;
 pub mod c25_sanity;
 pub mod c32_descriptor;
@@ -27,6 +28,7 @@ pub mod c40_groupby;
 pub fn replay_table() -> Vec<(&'static str, fn(&mut Src))> {
     let mut v: Vec<(&'static str, fn(&mut Src))> = Vec::new();
     v.extend_from_slice(c20_side::TABLE);
+    v.extend_from_slice(c21_bulk::TABLE);
     v.extend_from_slice(c23_header::TABLE);
     v.extend_from_slice(c25_sanity::TABLE);
     v.extend_from_slice(c32_descriptor::TABLE);
